@@ -180,6 +180,7 @@ def succ(problem, s, action, args, check_invariants=True) -> Succ:
     assigns = {}  # key -> list of values
     deltas = {}  # key -> Fraction sum
     fl_types = {}
+    srcs = {}  # key -> set of (value expression, binding) that produced the assignments
     for eff in action.effects:
         if eff.forall:
             info["features"].add("forall")
@@ -211,6 +212,7 @@ def succ(problem, s, action, args, check_invariants=True) -> Succ:
             sv = jv[1] if isinstance(jv, tuple) else (jv == "T")
             if eff.is_assignment():
                 assigns.setdefault(key, []).append(sv)
+                srcs.setdefault(key, set()).add((eff.value, tuple(sorted(binding.items()))) if not eff.value.is_constant() else eff.value)
             elif eff.is_increase():
                 deltas[key] = deltas.get(key, 0) + sv
                 deltas.setdefault(("#n", key), 0)
@@ -238,6 +240,11 @@ def succ(problem, s, action, args, check_invariants=True) -> Succ:
             if len(distinct) > 1:
                 return Succ(INAPP, reason="conflicting-assignments", info={"fluent": key, "values": distinct})
             if len(vals) > 1:
+                if len(srcs[key]) > 1:
+                    # equal values from syntactically different value expressions: the model-building API rejects such a
+                    # pair when both are unconditional (static conflict rule), so after grounding/simplification the
+                    # library may legitimately refuse the action; the statement only fixes *different* values.
+                    return Succ(DONTCARE, reason="same value assigned twice through different value expressions")
                 info["features"].add("same-value-twice")
             updates[key] = distinct[0]
     for key, d in deltas.items():
